@@ -8,7 +8,7 @@ from tools.vlib import cases, core, mdpgen, refsolve, runs, solverun
 
 def gen(ctx):
     quick = ctx.tier == "quick"
-    n = 5 if quick else 70
+    n = 5 if quick else 400
     cs = []
     # gamma = 1: periodic chains (period d) and unichain models; long runs on deterministic models wrap the buffer many times
     for period in (2, 3, 4):
